@@ -75,6 +75,15 @@ CLAIMED['C11'] = (
     'silently excluded; the 3 (x3 for mappings) policies are solver-picked; every tree is exhausted.',
     'container sizes <= 3 (4 thorough); element type int with ge; nested depth 2',
     'symbolic execution of the real code (CrossHair primitives + z3), metamorphic assertion, path-tree exhaustion, concrete replay')
+CLAIMED['C10'] = (
+    'Bounded symbolic differential model checking of RuntimeContext.handle_error / raise_error and every error site that '
+    'continues after it (BaseParser parse loops, Rule args parsers, FunctionParser.parse_params, union branches): the same '
+    'solver-chosen input is parsed with collect_errors off and on (max_errors solver-picked); the verdict and the value must '
+    'be equal, the collected errors must name exactly the items that fail alone (reference model of C05 for data classes, '
+    'element-wise conversion for containers, per-parameter validity for functions), none twice, no valid item, at most '
+    'max_errors; trees exhausted.',
+    'sizes: 5-6 keys per data class, containers <= 3 elements, one 4-parameter function; nested collection is not explored',
+    'symbolic execution of the real code (CrossHair primitives + z3), differential assertion, path-tree exhaustion, concrete replay')
 NOT_APPLICABLE = {}
 
 def main():
